@@ -23,6 +23,11 @@ def shards(mode, bin_, n, **kw):
 
 
 PROPS = {
+    "C07": {
+        "runs": [{"mode": "native-dev", "bin": "c07"}],
+        "expect_monitors": ["finite_conversions", "finite_clamp"],
+        "assumptions": ASSUME_COMMON + ["documented ranges typed from the min_*/max_* accessors and type docs (refmodel::space::Space::ranges)"],
+    },
     "C12": {
         "runs": [native("c12")],
         "expect_monitors": ["strict_parsing", "hex_format_parse_roundtrip", "packed_channel_orders", "named_colors"],
